@@ -78,6 +78,11 @@ def corpus(tier):
                     "void u2(char *s, char *t) { TWO_MEMBERS(k, l); k = 0; l = 1; if (s == t) {} }\n",
     }
     items.append(("ties", ties, None, ["ties.c", "ties.cpp"]))
+    # several library container types in one file (the dump lists the containers the tokens refer to)
+    conts = {"conts.cpp": "void c1(std::vector<int> &v, std::string &s, std::map<int,int> &m, std::list<int> &l, std::deque<int> &d) {\n"
+                          "  v.push_back(1); s += 'x'; m[1] = 2; l.push_back(3); d.push_front(4);\n"
+                          "  if (v.empty()) {} if (s.size() == 3) {} std::set<int> t; t.insert(1); std::array<int,3> a; a[3] = 0; }\n"}
+    items.append(("containers", conts, None, ["conts.cpp"]))
     return items
 
 
